@@ -98,6 +98,7 @@ def finish(pid, tier, results, wall, verbose=True):
                   'status': 'bounded', 'reason': ''}
             fr = run_falsifier(pid, ob, r, seed, budget=int(os.environ.get('PYVC_BOUNDED_BUDGET', '300' if tier == 'quick' else '3000')))
             rec = {'function': r['key'], 'clauses': r['bounded_clauses'], 'cases': (fr or {}).get('admissible', 0),
+                   'distinct_cases': (fr or {}).get('distinct', 0), 'samples': (fr or {}).get('samples', []),
                    'bound': (fr or {}).get('bound', 'seeded generator, see harness/gens.py'), 'result': 'held'}
             if fr and fr.get('reproduced'):
                 rec['result'] = 'violated'
@@ -227,10 +228,21 @@ def finish(pid, tier, results, wall, verbose=True):
         },
         'assumptions': sorted(assumptions),
     }
+    bounded_cases = sum(b['cases'] for b in bounded_recs)
+    if bounded_recs:
+        ev['coverage']['evaluations'] = bounded_cases
+        ev['coverage']['distinct_nontrivial'] = sum(b['distinct_cases'] for b in bounded_recs)
+        ev['coverage']['rule'] = ('bounded run-time contract check of the real function: inputs from the seeded generator in '
+                                  'harness/gens.py that satisfy the requires clauses; distinct = different generated inputs')
+    if n == 0 and bounded_recs:
+        # nothing is proved for this property: the evidence is that of a bounded exploration, and says so
+        ev['level'] = 'exploration'
+        ev['coverage']['samples'] = [s for b in bounded_recs for s in b['samples']][:6] or [{'note': 'no case generated'}]
+        ev['coverage']['explanation'] = 'no deductive obligation: every clause of this property is decided by the bounded run-time contract check (stated bound above), never counted as proved'
     os.makedirs(EVIDENCE_DIR, exist_ok=True)
     with open(os.path.join(EVIDENCE_DIR, f'{pid}.json'), 'w') as f:
         json.dump(ev, f, indent=1)
-    if errors or n == 0 or covers_bad:
+    if errors or covers_bad or (n == 0 and bounded_cases == 0):
         return 3
     if violations:
         return 1
